@@ -169,7 +169,7 @@ def searchObs (st : Store) (q : Text) : String × Store :=
         | some a, some b => st.limit > 0 && topLe b a
         | _, _ => false
       if tie then (srt.map (·.ix), true) else ((st.topIxsM theSorter K).1, false)
-  let hits := ((cands.filterMap (fun ix => st.records[ix]?)).map (scoreHit K srcScoreOrder q)).filter (hitMatches q)
+  let hits := st.hitsOf K srcScoreOrder q cands
   let sorted := hits.mergeSort hitLe
   let ranked := denseRanks hitLe sorted 0
   let pool := if ranked.isEmpty then "-" else ";".intercalate (ranked.map (fun (h, r) =>
